@@ -405,8 +405,17 @@ func TestRepeatPrograms(t *testing.T) {
 				}
 				qs = append([]string{fmt.Sprintf("“%s” = %d", k, v)}, qs...)
 			}
-			c.Src = "令甲 = 【" + strings.Join(ps, "，") + "】\n令乙 = 【" + strings.Join(qs, "，") + "】\n（显示：甲、乙）\n（显示：甲 为 乙、甲 不为 乙、甲 == 乙）\n（显示：以【乙】（包含：甲）、以【乙】（寻找：甲））\n遍历甲：\n    （显示：1）\n输出【甲，乙】"
 			labels = append(labels, "dict-literals")
+			// a literal may give the same key more than once (and so may a copy of it)
+			for i, nd := 0, rapid.IntRange(0, 3).Draw(t, "ndup"); i < nd; i++ {
+				k := keys[rapid.IntRange(0, n-1).Draw(t, "dupkey")]
+				at := rapid.IntRange(0, len(ps)).Draw(t, "dupat")
+				ps = append(ps[:at], append([]string{fmt.Sprintf("“%s” = %d", k, 50+i)}, ps[at:]...)...)
+				if i == 0 {
+					labels = append(labels, "literal-repeats-a-key")
+				}
+			}
+			c.Src = "令甲 = 【" + strings.Join(ps, "，") + "】\n令乙 = 【" + strings.Join(qs, "，") + "】\n（显示：甲、乙）\n（显示：甲 为 乙、甲 不为 乙、甲 == 乙）\n（显示：{以【乙】（包含：甲）}、{以【乙】（寻找：甲）}）\n遍历甲：\n    （显示：1）\n以键、值遍历甲：\n    （显示：键、值）\n（显示：甲之所有索引、甲之所有值）\n输出【甲，乙】"
 		case 3: // import-all of modules whose exports collide: which name the error reports
 			n := rapid.IntRange(2, 5).Draw(t, "nexp")
 			var body strings.Builder
@@ -423,6 +432,16 @@ func TestRepeatPrograms(t *testing.T) {
 		default: // errors: code, message, line
 			c.Src = "令典 = 【“a” = 1，“b” = 2，“c” = 3】\n以键、值遍历典：\n    （显示：键）\n    如果值 == 2：\n        （显示：典#“无”）\n输出典"
 			labels = append(labels, "error-text")
+		}
+		// how the first run ends (a class of programs that never gets past the parser shows here)
+		first := observe(c)
+		switch {
+		case strings.Contains(first, "error=\"\""):
+			labels = append(labels, "ends:value")
+		case strings.Contains(first, "语法错误"):
+			labels = append(labels, "ends:syntax-error")
+		default:
+			labels = append(labels, "ends:runtime-error")
 		}
 		key, _ := json.Marshal(c)
 		h.R.Case(t, "repeat", string(key), c, labels, true, checkRepeat(c))
